@@ -68,42 +68,20 @@ def row_valued_in_once(recipe):
     return False
 
 
-def once_cluster(rng):
-    """2-3 just_once templates over 1-2 tables, with and without nicknames (ids coincide across
-    tables), then ordinary templates that use them by table name, by nickname and in formulas."""
-    def T(table, nick=None, once=False, fields=(), count=None):
-        return {"table": table, "nick": nick, "count": count, "once": once,
-                "fields": [list(f) for f in fields], "friends": []}
-    tables = ["A", "B"] if rng.random() < 0.7 else ["A"]
-    nicks = ["zz", "aa", "mm"]
-    rng.shuffle(nicks)
-    stmts, names = [], []
-    for j in range(rng.randint(2, 3)):
-        tb = rng.choice(tables)
-        nk = nicks[j] if rng.random() < 0.6 else None
-        stmts.append(["obj", T(tb, nk, True, [("f0", ["int", 10 + j]), ("f1", ["str", rng.choice(S.WORDS)])],
-                              count=(["int", 2] if rng.random() < 0.2 else None))])
-        names.append(tb)
-        if nk:
-            names.append(nk)
-    for j in range(rng.randint(1, 2)):
-        fields = []
-        for q, nm in enumerate(rng.sample(names, k=min(len(names), rng.randint(1, 3)))):
-            fields.append(("r%d" % q, ["ref", nm]))
-            fields.append(("v%d" % q, ["formula", [["e", ["attr", ["var", nm], rng.choice(["f0", "id"])]]]]))
-        stmts.append(["obj", T(rng.choice(["C", "D"]), None, False, fields)])
-    if rng.random() < 0.4:        # an ordinary template of the same table shadows the table name locally
-        stmts.insert(rng.randint(len(stmts) - 1, len(stmts)), ["obj", T(rng.choice(tables), None, False, [("f0", ["int", 77])])])
-    return {"version": rng.choice([2, 3]), "options": [], "stmts": stmts}, ["just_once", "nick", "once_cluster"]
+once_cluster = S.stream_once_cluster
+DIRECTED = [S.stream_once_cluster, S.stream_once_cluster, S.stream_once_hidden, S.stream_idle_middle, S.stream_idle_middle]
 
 
 def generate(rng, tier):
-    n = 90 if tier == "quick" else 2500
+    n = 240 if tier == "quick" else 3000
     cases = []
     for _ in range(n // 3):
-        r, feats = once_cluster(rng)
+        r, feats = rng.choice(DIRECTED)(rng)
         k = rng.randint(2, 4)
-        for ks in compositions(k, rng, limit=3 if tier == "quick" else 6):
+        lim = 3 if tier == "quick" else 6
+        if "idle_table" in feats:       # needs >= 3 runs with a dry one in the middle
+            k, lim = rng.choice([3, 4]), 8
+        for ks in compositions(k, rng, limit=lim):
             cases.append({"recipe": r, "ks": ks, "features": feats})
     while len(cases) < n * 3 and n > 0:
         r, feats = S.gen_recipe(rng, W)
